@@ -164,3 +164,25 @@ pub trait ExToString {
     spec fn to_string_spec(&self) -> Seq<char>;
     fn to_string(&self) -> (r: String) ensures r@ == self.to_string_spec();
 }
+
+// ---- conversions used by src/value/convert.rs --------------------------------------------------------------
+/// `std::num::TryFromIntError` is a unit-like struct: it has exactly one value
+pub uninterp spec fn the_try_from_int_error() -> core::num::TryFromIntError;
+pub open spec fn overflow_err(e: core::num::TryFromIntError) -> Error { Error::NumericOverflow(e) }
+pub mod ax_conv {
+use super::*;
+#[verifier::external_body]
+pub broadcast proof fn axiom_try_from_int_error_unique(e: core::num::TryFromIntError)
+    ensures #[trigger] overflow_err(e) == overflow_err(the_try_from_int_error()),
+{}
+}
+pub use ax_conv::*;
+/// `f64::from(f32)` is the exact widening
+pub uninterp spec fn f32_to_f64(x: f32) -> f64;
+pub assume_specification[ <f64 as core::convert::From<f32>>::from ](x: f32) -> (r: f64) ensures r == f32_to_f64(x);
+
+// unsigned -> i128 widenings (vstd specifies the signed ones)
+pub assume_specification[ <i128 as core::convert::From<u64>>::from ](x: u64) -> (r: i128) ensures r == x as i128;
+pub assume_specification[ <i128 as core::convert::From<u32>>::from ](x: u32) -> (r: i128) ensures r == x as i128;
+pub assume_specification[ <i128 as core::convert::From<u16>>::from ](x: u16) -> (r: i128) ensures r == x as i128;
+pub assume_specification[ <i128 as core::convert::From<u8>>::from ](x: u8) -> (r: i128) ensures r == x as i128;
